@@ -315,12 +315,16 @@ bool FileManager::readStream(std::istream &_istream, MeshT &_mesh,
         }
     }
 
-    while(!_istream.eof()) {
-        // "End of file reached while searching for input!"
-        // is thrown here. \TODO Fix it!
-
+    while(_istream.good()) {
         // Read property
         readProperty(_istream, _mesh);
+    }
+    if(!_istream.eof()) {
+        // a property value could not be parsed (failbit without eofbit)
+        if (verbosity_level_ >= 1) {
+            std::cerr << "OVM File loading error: malformed property data." << std::endl;
+        }
+        return false;
     }
 
     if(_computeBottomUpIncidences) {
